@@ -453,6 +453,8 @@ def run(ctx):
     if not ctx.quick:
         tasks += [dict(s0=s, depth=3, tier=ctx.tier, unmerged=True) for s in starts[::3]]
     ctx.pmap("mzcheck.checks.c08", "task", tasks)
+    for hs in (("4", "7") if ctx.quick else ("1", "2", "4", "7", "123", "4242")):  # two start datasets again in interpreters with other hash seeds
+        ctx.pmap("mzcheck.checks.c08", "task", [dict(s0=s, depth=2, tier=ctx.tier) for s in starts[:2]], hashseed=hs)
     cfg_tasks = []
     gens = [("gen_dfs", {}, 42), ("gen_dfs", dict(do_forks=False), 7), ("gen_percolation", dict(p=0.5), 3), ("gen_dfs_percolation", dict(p=0.2), 5)]
     ns = 4
